@@ -230,12 +230,23 @@ func ruleOverlapAlign(w *World, r *Report) {
 		if hc != nil && calleeOf(hc) != nil && w.InModule(calleeOf(hc)) && calleeOf(hc).Blocks != nil {
 			h := calleeOf(hc)
 			ia, ib := -1, -1
+			isSplitOf := func(v ssa.Value, p *ssa.Parameter) bool {
+				sc, ok := resolve(v).(*ssa.Call)
+				return ok && calleeIs(sc, "strings", "Split") && resolve(sc.Call.Args[0]) == ssa.Value(p)
+			}
+			whole := map[int]bool{}
 			for i, arg := range hc.Call.Args {
 				if splitField(arg, f.Params[0], k) || parsedField(arg, f.Params[0], k) {
 					ia = i
 				}
 				if splitField(arg, f.Params[1], k) || parsedField(arg, f.Params[1], k) {
 					ib = i
+				}
+				if isSplitOf(arg, f.Params[0]) {
+					ia, whole[i] = i, true
+				}
+				if isSplitOf(arg, f.Params[1]) {
+					ib, whole[i] = i, true
 				}
 			}
 			if ia >= 0 && ib >= 0 && ia < len(h.Params) && ib < len(h.Params) {
@@ -244,6 +255,27 @@ func ruleOverlapAlign(w *World, r *Report) {
 						return p
 					}
 					var out ssa.Value
+					if whole[paramIndex(h, p)] {
+						// the helper receives all fields: field k is parsed from p[k]
+						instrs(h, func(in ssa.Instruction) {
+							ex, ok := in.(*ssa.Extract)
+							if !ok || ex.Index != 0 || out != nil {
+								return
+							}
+							c, ok := ex.Tuple.(*ssa.Call)
+							if !ok || !(calleeIs(c, "strconv", "Atoi") || calleeIs(c, "strconv", "ParseInt")) {
+								return
+							}
+							if ld, ok := loadOf(resolve(c.Call.Args[0])); ok {
+								if ia2, ok := ld.(*ssa.IndexAddr); ok && resolve(ia2.X) == ssa.Value(p) {
+									if kk, ok := constInt(ia2.Index); ok && kk == k {
+										out = ex
+									}
+								}
+							}
+						})
+						return out
+					}
 					instrs(h, func(in ssa.Instruction) {
 						ex, ok := in.(*ssa.Extract)
 						if !ok || ex.Index != 0 || out != nil {
